@@ -51,7 +51,13 @@ Align == { Shape(v, a, m, al, pl, oc, om, 0) :
              al \in {0, 1}, pl \in {"e", "s"}, oc \in 0..7,
              om \in IF Thorough THEN 0..7 ELSE {0, 1, 3} }
 
-RoundTrip == Lengths \cup Long \cup Align
+\* length edges: optimised bulk paths (8-, 16-, 32-, 64-byte loops) would start at one of these, for AD and message
+Edges == {31, 32, 33, 63, 64, 65, 66, 127, 128, 129, 255, 257, 513, 1025}
+EdgeShapes == { Shape(v, a, m, al, "e", 0, 0, 0) : v \in V, a \in Edges, m \in {0, 6}, al \in {0} }
+         \cup { Shape(v, a, m, al, "e", 0, 0, 0) : v \in V, a \in {0, 2}, m \in Edges, al \in {0, 1} }
+         \cup { Shape(v, e, e + 1, 1, "s", 1, 1, 0) : v \in V, e \in {65, 129, 257} }
+
+RoundTrip == Lengths \cup Long \cup Align \cup EdgeShapes
 
 (***************************************************************************)
 (* Tamper classes of decryption shapes.  The position is chosen by the     *)
@@ -71,6 +77,10 @@ Tamper == { Shape(v, am[1], am[2], al, "e", 0, 0, t) :
 SivFamilies == { [v |-> v, adlen |-> a, mlen |-> m, nbits |-> IF Thorough THEN 24 ELSE 8,
                   cls |-> Cls(a, m, v), kcls |-> KCls(a, m, v)] :
                  v \in V, a \in {0, 3, 8}, m \in IF Thorough THEN {0, 1, 4, 8, 9, 12, 16, 23, 40} ELSE {1, 8, 12, 23} }
+         \cup { [v |-> v, adlen |-> am[1], mlen |-> am[2], nbits |-> IF Thorough THEN 12 ELSE 5,
+                  cls |-> Cls(am[1], am[2], v), kcls |-> "r"] :
+                 v \in V, am \in {<<0, 33>>, <<40, 9>>, <<5, 64>>, <<70, 65>>, <<0, 130>>, <<130, 16>>}
+                            \cup IF Thorough THEN {<<257, 257>>, <<0, 1025>>, <<1025, 8>>} ELSE {} }
 
 \* C04 long packets: lengths x pre-fill x tamper x alias
 BigLens == IF Thorough THEN (0..40) \cup {63, 64, 65, 255, 256, 257, 1023, 1024, 1025, 4095, 4096, 4097, 65535, 65536, 65537, 1048576}
